@@ -103,6 +103,16 @@ theorem rt_imp_rtRelaxed (mtu : Nat) (obus : List Obu) (o : Pred.C13.RtObs) :
 def rtRelaxedW (mtu : Nat) (ows : List (Obu × Nat)) (o : Pred.C13.RtObs) : Bool :=
   !o.panicked && (!widthsOK ows || rtRelaxed mtu (ows.map (·.1)) o)
 
+theorem rt_imp_rtRelaxedW (mtu : Nat) (ows : List (Obu × Nat)) (o : Pred.C13.RtObs) :
+    Pred.C13.rt mtu (ows.map (·.1)) o = true → rtRelaxedW mtu ows o = true := by
+  intro h
+  have h1 := rt_imp_rtRelaxed mtu _ o h
+  have h2 : (!o.panicked) = true := by
+    unfold rtRelaxed at h1
+    simp only [Bool.and_eq_true] at h1
+    exact h1.1
+  simp [rtRelaxedW, h1, h2]
+
 def rt : Handler :=
   mkHandler rdRtIn rdRtObs (fun i => rtObs i.mtu i.stream)
     (fun i o => rtRelaxedW i.mtu.toNat i.obus o)
